@@ -41,7 +41,8 @@ LEVEL_TEXT = (
     "flipped ciphertext / wrong session id far ahead of the counter, plain frames of several services, nested wrappers, wrapped remote "
     "diagnosis/configuration services, wrappers before the handshake, session close) interleaved with client sends, and complete SecureTunnel "
     "lives (connect, requests, heartbeats at 70 s, keep-alives after 50 s idle, server-side close + reconnect, disconnect) for hundreds of "
-    "virtual seconds. Histories are sampled, hence exploration."
+    "virtual seconds; in a share of both, the outgoing counter is moved to 2^48 - k (k = 0..5) after authentication so that requests, heartbeats, keep-alives and the close "
+    "status run into the end of the 48 bit sequence field (refusing to send is fine, a repeated or lower number on the wire is a violation). Histories are sampled, hence exploration."
 )
 LEVEL_NOTE = (
     "Trusted: vlib/refcrypto_ip.py (self-tested against the recorded AN159 vectors at start; failure => inconclusive), the virtual loop. "
@@ -117,7 +118,11 @@ def gen_spec(rng, index):
         "main": [rng.choice(MAIN_KINDS) for _ in range(rng.randrange(4, 28))],
         "end": rng.choice(("stop", "stop", "close", "timeout", "unauthenticated", "lose")),
         "sends_before_connect": rng.random() < 0.3,
+        # outgoing counter moved to 2^48 - k after authentication (the end of the 48 bit sequence field)
+        "tx_counter_from_end": rng.choice((None, None, None, None, None, 0, 1, 2, 3, 4, 5)),
     }
+    if spec["tx_counter_from_end"] is not None:
+        spec["main"] = [rng.choice(("client-send", "client-send", "client-send", "genuine", "idle", "keepalive")) for _ in range(rng.randrange(4, 12))]
     return spec
 
 
@@ -136,6 +141,7 @@ def gen_tunnel_spec(rng, index):
             }
             for _ in range(rng.randrange(1, 4))
         ],
+        "tx_counter_from_end": rng.choice((None, None, None, 0, 1, 2, 3, 4, 5)),
     }
 
 
@@ -189,6 +195,8 @@ def tx_oracle(ctx, spec, records, what):
         if rec.seq != prev + 1:
             contiguous = False
         prev = rec.seq
+        if rec.seq >= (1 << 48) - 6:
+            ctx.count("tx_wrappers_in_last_6_numbers_of_48_bit_range")
         inner = ref.service_of(rec.inner)
         ctx.count(f"tx_inner_{inner:04x}")
     if not contiguous:
@@ -432,6 +440,10 @@ def run_session_history(ctx, spec):
             ctx.count("connects_completed")
             model.kinds.append("connected")
         if outcome == "connected" and spec["auth"] == "success" and session.initialized:
+            if spec.get("tx_counter_from_end") is not None:
+                session._sequence_number = (1 << 48) - spec["tx_counter_from_end"]
+                ctx.count("histories_tx_counter_near_end")
+                model.kinds.append(f"txend{spec['tx_counter_from_end']}")
             for kind in spec["main"]:
                 if srv.transport.closed:
                     break
@@ -450,9 +462,16 @@ def run_session_history(ctx, spec):
                 if not srv.transport.closed:
                     ctx.count("session_still_open_after_server_close")
             elif end == "lose" and not srv.transport.closed:
-                srv.transport.lose()
+                try:
+                    srv.transport.lose()
+                except Exception as exc:  # noqa: BLE001 - e.g. the close status cannot be sent with an exhausted counter; recorded
+                    ctx.count("connection_lost_raised_" + type(exc).__name__)
                 await asyncio.sleep(0.01)
-        session.stop()
+        try:
+            session.stop()
+        except Exception as exc:  # noqa: BLE001 - refusing to send (counter exhausted) is fine; what is on the wire is judged
+            ctx.count("stop_raised_" + type(exc).__name__)
+            model.kinds.append("stop-" + type(exc).__name__)
         await asyncio.sleep(0.01)
         await client_send(session, False)
 
@@ -504,6 +523,10 @@ def run_tunnel_history(ctx, spec):
         )
         await tunnel.connect()
         kinds.append("connect")
+        if spec.get("tx_counter_from_end") is not None:
+            tunnel.transport._sequence_number = (1 << 48) - spec["tx_counter_from_end"]
+            ctx.count("histories_tx_counter_near_end")
+            kinds.append(f"txend{spec['tx_counter_from_end']}")
         for ph in spec["phases"]:
             srv = servers[-1]
             for _ in range(ph["sends"]):
@@ -548,7 +571,10 @@ def run_tunnel_history(ctx, spec):
                 kinds.append(ph["end"])
                 await asyncio.sleep(10)
             elif ph["end"] == "lose" and not srv.transport.closed:
-                srv.transport.lose()
+                try:
+                    srv.transport.lose()
+                except Exception as exc:  # noqa: BLE001
+                    ctx.count("connection_lost_raised_" + type(exc).__name__)
                 kinds.append("lose")
                 await asyncio.sleep(10)
         await tunnel.disconnect()
@@ -606,6 +632,7 @@ def run(ctx):
     ctx.require(
         "histories_session", "histories_tunnel", "expected_accept", "callbacks_seen", "tx_wrappers", "tx_plain_session_request", "connects_completed",
         "tx_inner_0954", "tx_inner_0207", "tx_inner_0953", "tunnel_injected_plain_forged_replayed", "client_sends",
+        "histories_tx_counter_near_end", "tx_wrappers_in_last_6_numbers_of_48_bit_range", "client_send_refused_IPSecureError",
         "genuine_accepted_below_rejected_number", "event_replayed", "event_nested-wrapper", "event_wrong-key", "event_stale-sequence-number",
     )
     n_a = ctx.scale(1200, 200000)
